@@ -353,10 +353,13 @@ def run(mod, pid, tier, seed, procs, t0):
     health = {}
     bad_health = []
     for label, floor in getattr(mod, "HEALTH", {}).items():
-        frac = agg["classes"].get(label, 0) / float(total)
+        count = agg["classes"].get(label, 0)
+        frac = count / float(total)
         health[label] = round(frac, 4)
-        if frac < floor and not agg["violations"]:
-            bad_health.append("{}: {:.4f} < {}".format(label, frac, floor))
+        # floor >= 1: absolute minimum count; floor < 1: minimum fraction of all evaluations
+        low = count < floor if floor >= 1 else frac < floor
+        if low and not agg["violations"]:
+            bad_health.append("{}: {} cases ({:.4f}) < {}".format(label, count, frac, floor))
     wall = time.time() - t0
     evidence = {
         "property_id": pid,
